@@ -13,6 +13,7 @@ import LndModel.C04.Model
 import LndModel.C04.Parse
 import LndModel.C04.Watch
 import LndModel.C04.RevLog
+import LndModel.C04.BrarLife
 
 open LndModel LndModel.Lines LndModel.C04 LndModel.C04.Script LndModel.C04.Parse
 
@@ -50,6 +51,12 @@ structure St where
   watchNeg : Nat := 0
   revlogs : Nat := 0
   samples : Nat := 0
+  ubis : Nat := 0
+  ubiConverted : Nat := 0
+  ubiRemoved : Nat := 0
+  restarts : Nat := 0
+  rsOps : Nat := 0
+  rstore : BrarLife.Store String := {}
 
 def mismatch (s : St) (detail : String) : IO St := do
   IO.println s!"MISMATCH case={s.caseId} line={s.lines} {detail}"
@@ -63,6 +70,110 @@ def kindOf (k : String) : Option OutKind :=
   match k with
   | "toLocal" => some .toLocal | "toRemote" => some .toRemote | "htlcAcc" => some .htlcAcc
   | "htlcOff" => some .htlcOff | "secondLevel" => some .secondLevel | _ => none
+
+
+/-! breach-arbitrator life cycle (`ubi` / `rs` lines) -/
+
+def lifeKind (k : String) : Option BrarLife.Kind :=
+  match k with
+  | "toRemote" => some .toRemote | "toLocal" => some .toLocal | "htlcAcc" => some .htlcAcc
+  | "htlcOff" => some .htlcOff | "secondLevel" => some .second | _ => none
+
+def lifeKindName : BrarLife.Kind → String
+  | .toRemote => "toRemote" | .toLocal => "toLocal" | .htlcAcc => "htlcAcc"
+  | .htlcOff => "htlcOff" | .second => "secondLevel"
+
+/-- `kind:amt:value:op,...`; also answers whether amt = recorded output value everywhere -/
+def parseBos (t : String) : Option (List BrarLife.BO × Bool) :=
+  if t == "-" then some ([], true) else
+  let items := t.splitOn ","
+  let rec go (l : List String) (i : Nat) (acc : List BrarLife.BO) (ok : Bool) : Option (List BrarLife.BO × Bool) :=
+    match l with
+    | [] => some (acc.reverse, ok)
+    | x :: rest =>
+      match x.splitOn ":" with
+      | [k, a, v, o] =>
+        match lifeKind k, a.toNat?, v.toNat?, o.toNat? with
+        | some kk, some aa, some vv, some oo => go rest (i + 1) (⟨i, kk, aa, oo⟩ :: acc) (ok && aa == vv)
+        | _, _, _, _ => none
+      | _ => none
+  go items 0 [] true
+
+def parseSpends (t : String) : Option (List BrarLife.Spend) :=
+  if t == "-" then some [] else
+  (t.splitOn ",").mapM fun x =>
+    match x.splitOn ":" with
+    | [i, w, a, o] =>
+      match i.toNat?, a.toNat?, o.toNat? with
+      | some ii, some aa, some oo => some ⟨ii, w == "U", aa, oo⟩
+      | _, _, _ => none
+    | _ => none
+
+def showBos (l : List BrarLife.BO) : String :=
+  if l.isEmpty then "-" else ",".intercalate (l.map fun b => s!"{lifeKindName b.kind}:{b.amt}:{b.op}")
+
+def sortStr (l : List String) : List String := l.mergeSort (fun a b => decide (a ≤ b))
+
+def handleUbi (s : St) (ws rest : List String) : IO St := do
+  let s := { s with evals := s.evals + 1, ubis := s.ubis + 1 }
+  let ctxS := kvS rest "ctx"
+  if resOf ws != "ok" then
+    return ← monitor s "justice-complete" s!"ctx={ctxS} rd={kvS rest "rd"} updateBreachInfo: {resOf ws}"
+  let some (ins, _) := parseBos (kvS rest "in") | mismatch s s!"ubi: unparsed in={kvS rest "in"}"
+  let some (outs, amtOk) := parseBos (kvS rest "out") | mismatch s s!"ubi: unparsed out={kvS rest "out"}"
+  let some spends := parseSpends (kvS rest "spends") | mismatch s s!"ubi: unparsed spends={kvS rest "spends"}"
+  let mut s := s
+  let strip (l : List BrarLife.BO) : List String := l.map fun b => s!"{lifeKindName b.kind}:{b.amt}:{b.op}"
+  -- (S) every output that was not swept by one of OUR spends is still served, at the outpoint /
+  -- amount where the funds now are (second level after the cheater's advance); recomputed per
+  -- output from the spend history (BrarLife.specOuts), order irrelevant
+  let spec := BrarLife.specOuts ins spends
+  if sortStr (strip spec) != sortStr (strip outs) then
+    s ← monitor s "justice-complete" s!"ctx={ctxS} rd={kvS rest "rd"} in={kvS rest "in"} spends={kvS rest "spends"} served={showBos outs} expected={showBos spec}"
+  if !amtOk then
+    s ← monitor s "index-amount" s!"ctx={ctxS} rd={kvS rest "rd"} breached output amount differs from its recorded output value: {kvS rest "out"}"
+  -- (X) the loop model, state for state (order, totals)
+  let m := BrarLife.ubi ins spends
+  if strip m.outs != strip outs || m.total != kvN rest "total" || m.revoked != kvN rest "revoked" then
+    s ← mismatch s s!"ubi ctx={ctxS} rd={kvS rest "rd"} model={showBos m.outs},total{m.total},revoked{m.revoked} impl={showBos outs},total{kvN rest "total"},revoked{kvN rest "revoked"}"
+  let conv := (spends.filter fun sp => !sp.ours).length
+  return { s with ubiConverted := s.ubiConverted + conv, ubiRemoved := s.ubiRemoved + (spends.length - conv) }
+
+def handleRs (s : St) (ws rest : List String) : IO St := do
+  let s := { s with evals := s.evals + 1, rsOps := s.rsOps + 1 }
+  let res := resOf ws
+  let k := kvN rest "k"
+  match kvS rest "op" with
+  | "handoff" =>
+    if s.rstore.isBreached k then
+      if res == "skip" then return s else mismatch s s!"rs handoff k={k}: model=skip impl={res}"
+    else
+      let s' := { s with rstore := s.rstore.add k (kvS rest "d") }
+      if res == "added" then return s' else mismatch s' s!"rs handoff k={k}: model=added impl={res}"
+  | "add" =>
+    let s' := { s with rstore := s.rstore.add k (kvS rest "d") }
+    if res == "ok" then return s' else mismatch s' s!"rs add k={k}: impl={res}"
+  | "remove" =>
+    match s.rstore.remove k with
+    | none => if res == "err" then return s else mismatch s s!"rs remove k={k}: model=err(no bucket) impl={res}"
+    | some st =>
+      let s' := { s with rstore := st }
+      if res == "ok" then return s' else mismatch s' s!"rs remove k={k}: model=ok impl={res}"
+  | "isbreached" =>
+    let m := if s.rstore.isBreached k then "true" else "false"
+    if res == m then return s
+    else monitor s "retribution-persisted" s!"IsBreached k={k}: store history says {m}, implementation {res}"
+  | "restart" =>
+    let s := { s with restarts := s.restarts + 1 }
+    if res == "ok" then return s else mismatch s s!"rs restart: {res}"
+  | "forall" =>
+    -- (S) after any history incl. restarts: exactly the retributions handed off and not yet
+    -- cleaned up, each once, with the snapshot written at hand-off
+    let m := sortStr (s.rstore.items.map fun p => s!"{p.1}:{p.2}")
+    let ms := if m.isEmpty then "-" else ",".intercalate m
+    if res == ms then return s
+    else monitor s "retribution-persisted" s!"ForAll: stored={res} expected={ms}"
+  | o => mismatch s s!"rs: unknown op {o}"
 
 def handleSpend (s : St) (ws : List String) : IO St := do
   let s := { s with evals := s.evals + 1 }
@@ -180,7 +291,7 @@ def step (s : St) (line : String) : IO St := do
                                taprootFinal := b "taprootfinal" || kvS rest "type" == "taprootfinal" },
                        csv := #[(kvNat? rest "csvA").getD 5, (kvNat? rest "csvB").getD 4],
                        thaw := kvN rest "thaw", initA := kvS rest "initiator" != "B", noamt := b "noamt",
-                       cases := s.cases + 1 }
+                       cases := s.cases + 1, rstore := {} }
     -- honest peers never reject each other's messages; if they do the history is cut short
     let s ← if b "dead" then mismatch s "history aborted: a peer rejected an honest message" else pure s
     if s.samples < 4 && id != "tmpl" && id != "hint" then
@@ -341,6 +452,24 @@ def step (s : St) (line : String) : IO St := do
     else if mv != iv then
       mismatch s s!"watchneg ctx={kvS rest "ctx"} case={kvS rest "case"} model={repr mv} impl={repr iv}"
     else return s
+  | "ubi" :: rest => handleUbi s ws rest
+  | "rs" :: rest => handleRs s ws rest
+  | "rsload" :: rest =>
+    let s := { s with evals := s.evals + 1, restarts := s.restarts + 1 }
+    -- (S) the retribution read back after the database was re-opened is the one handed off
+    if resOf ws == "same" then return s
+    else monitor s "retribution-persisted" s!"ctx={kvS rest "ctx"} when={kvS rest "when"} stored_retributions={kvS rest "n"} read back: {resOf ws}"
+  | "ubisame" :: rest =>
+    let s := { s with evals := s.evals + 1 }
+    let srt (t : String) : List String := sortStr (t.splitOn ",")
+    -- (S) after a restart + re-delivery of the chain history the same outputs are served
+    if srt (kvS rest "live") == srt (kvS rest "reloaded") then return s
+    else monitor s "justice-complete" s!"ctx={kvS rest "ctx"} after restart served={kvS rest "reloaded"} before restart={kvS rest "live"}"
+  | "lifeend" :: rest =>
+    let s := { s with evals := s.evals + 1 }
+    if resOf ws == "0" then return s
+    else monitor s "justice-complete" s!"ctx={kvS rest "ctx"} all our justice transactions confirmed but outputs are still served: {kvS rest "left"}"
+  | "life" :: rest => mismatch s s!"life cycle ctx={kvS rest "ctx"}: {resOf ws}"
   | "jmissing" :: _ => mismatch s s!"harness lost the revoked transaction: {line}"
   | "jsecond" :: _ => return s
   | "jin" :: rest =>
@@ -400,6 +529,11 @@ def main : IO Unit := do
   IO.println s!"STAT chain_watcher_model_decisions_compared={s.watchModel + s.watchNeg}"
   IO.println s!"STAT revlog_entries_recomputed_by_model={s.revlogs}"
   IO.println s!"STAT revoked_heights={s.revoked}"
+  IO.println s!"STAT update_breach_info_calls={s.ubis}"
+  IO.println s!"STAT second_level_conversions={s.ubiConverted}"
+  IO.println s!"STAT outputs_swept_by_us={s.ubiRemoved}"
+  IO.println s!"STAT retribution_store_ops={s.rsOps}"
+  IO.println s!"STAT restarts={s.restarts}"
   IO.println s!"STAT retributions={s.retrs}"
   IO.println s!"STAT outputs_checked={s.outs}"
   IO.println s!"STAT justice_inputs_executed={s.spendsPos}"
